@@ -47,6 +47,7 @@ type Contract struct {
 	Inline       bool
 	NoOverflow   bool // do not generate overflow obligations (documented)
 	Local        bool
+	LoopFrame    bool
 	QuickStride  int
 	ThoroughOnly bool
 	Valid        *Clause                // overflow obligations are proved under this validity condition
@@ -433,6 +434,8 @@ func (cs *ContractSet) parseFile(path, pkgDir string) error {
 			cur.Float = rest
 		case "emits":
 			cur.Emits = rest
+		case "loopframe":
+			cur.LoopFrame = true
 		case "local":
 			// a contract case that is proved but not assumed at call sites
 			cur.Local = true
